@@ -164,9 +164,51 @@ namespace this_thread { inline void verif_yield() noexcept { ::verif::yield_poin
 
 static inline void verif_mm_pause() { ::verif::pause_point(); }
 
+namespace std { namespace chrono {
+// virtual monotonic clock for code compiled under the shim (timed spin loops must not depend on wall time)
+struct verif_steady_clock {
+    using duration = std::chrono::nanoseconds;
+    using rep = duration::rep;
+    using period = duration::period;
+    using time_point = std::chrono::time_point<verif_steady_clock, duration>;
+    static constexpr bool is_steady = true;
+    static time_point now() noexcept { return time_point(duration((rep)::verif::virtual_now_ns())); }
+};
+} }
+
+namespace std {
+// scheduler-aware replacement of std::mutex for code compiled under the shim (a controlled thread must never block
+// in the kernel while it holds the baton): a spin lock whose every attempt is a scheduling point.
+class verif_mutex {
+    std::atomic<bool> f{false};
+public:
+    constexpr verif_mutex() noexcept = default;
+    verif_mutex(const verif_mutex&) = delete;
+    verif_mutex& operator=(const verif_mutex&) = delete;
+    bool try_lock() noexcept {
+        ::verif::pre(::verif::K_XCHG, &f, 5);
+        bool old = f.exchange(true);
+        ::verif::post(::verif::K_XCHG, &f, 5, old, 1, 1);
+        return !old;
+    }
+    void lock() noexcept { while (!try_lock()) ::verif::yield_point(); }
+    void unlock() noexcept {
+        ::verif::pre(::verif::K_STORE, &f, 3);
+        f.store(false);
+        ::verif::post(::verif::K_STORE, &f, 3, 0, 1, 1);
+    }
+};
+}
+extern "C" int verif_pthread_create(pthread_t*, const pthread_attr_t*, void* (*)(void*), void*);
+extern "C" int verif_pthread_join(pthread_t, void**);
+
 #define atomic verif_atomic
 #define atomic_thread_fence verif_atomic_thread_fence
 #define _mm_pause verif_mm_pause
 #define yield verif_yield
 #define syscall verif_syscall
+#define mutex verif_mutex
+#define steady_clock verif_steady_clock
+#define pthread_create verif_pthread_create
+#define pthread_join verif_pthread_join
 #endif
